@@ -3,7 +3,9 @@ CONSTANTS
   Lens = {3, 5}
   H = 3
   Preface = 0
+  Peek = 0
+  MaxTimeouts = 0
   Defects = {}
 SPECIFICATION Spec
-INVARIANTS InOrderOnce NoEarly Prompt Consumed PrefaceOnce NoError SameForEveryCut EmitCase
+INVARIANTS InOrderOnce NoEarly Prompt Consumed PrefaceOnce NoError NoByteLost SameForEveryCut EmitCase
 CHECK_DEADLOCK FALSE
